@@ -114,8 +114,8 @@ class U:
         return self.it.getattr(obj, name)
 
     # ---- obligations
-    def ensure(self, goal, label, kind="ensures"):
-        return self.path.prove(goal, f"{self.unit.name}:{label}", kind=kind)
+    def ensure(self, goal, label, kind="ensures", desc=""):
+        return self.path.prove(goal, f"{self.unit.name}:{label}", kind=kind, desc=desc)
 
     def cover(self, label):
         return self.path.cover(f"{self.unit.name}:cover:{label}")
